@@ -133,7 +133,7 @@ def run_case(ctx, kind, rng, idx):
     # --- public builder, dense and one sparse container --------------------
     cname = mc.CONTAINERS[1 + int(rng.integers(0, 7))]
     for tag, Cin in (() if san else (
-            ('dense', np.array(C)), (cname, mc.to_container(C, cname)))):
+            ('dense', np.array(C)), (cname, mc.to_container(C, cname, rng)))):
         fz = Frozen(Cin)
         try:
             with warnings.catch_warnings(record=True) as w:
